@@ -253,6 +253,18 @@ def run_case(case):
     if "snap" in want:
         res["snap0"] = snapshot(ctx)
     out = io.StringIO()
+    evlog = None
+    if "evals" in want:
+        # every Context.evaluate(expr, originalAtts) the interpreter makes, with its result (observed only)
+        evlog = []
+        real_evaluate = ctx.evaluate
+
+        def logging_evaluate(expr, originalAtts=None):
+            v = real_evaluate(expr, originalAtts)
+            if originalAtts is not None and len(evlog) < 3000:
+                evlog.append([expr, [[k, x] for k, x in originalAtts.items()], _cval(v)])
+            return v
+        ctx.evaluate = logging_evaluate
     try:
         main.expand(ctx, out)
         res["out"] = out.getvalue()
@@ -262,6 +274,9 @@ def run_case(case):
         res["exc"] = type(e).__name__ + ": " + str(e)
     if "snap" in want:
         res["snap1"] = snapshot(ctx)
+    if evlog is not None:
+        del ctx.evaluate
+        res["evals"] = evlog
     res["canary"] = list(canary())
     if "trace" in want and res["exc"] is None:
         # a second expansion, observed command by command (fresh context, same inputs)
